@@ -4,7 +4,7 @@ import json
 
 from fim.user.topology import ExperimentTopology
 from fim.user.component import ComponentModelType
-from fim.slivers.capacities_labels import Capacities, Labels
+from fim.slivers.capacities_labels import Capacities, Labels, CapacityHints
 from fim.slivers.network_service import ServiceType
 from fim.authz.attribute_collector import ResourceAuthZAttributes as AZ
 from fim.logging.log_collector import LogCollector
@@ -20,6 +20,8 @@ MIXES = {'none': [], 'gpu': [('g1', 'GPU_RTX6000')], 'nvme+shared': [('d1', 'NVM
 NODE_CONFIGS_Q = [(('S1', 'none'),), (('S1', 'gpu'),), (('S1', 'none'), ('S1', 'nvme+shared')), (('S1', 'none'), ('S2', 'none')),
                   (('S1', 'gpu'), ('S2', 'nvme+shared'))]
 NODE_CONFIGS_T = NODE_CONFIGS_Q + [(('S1', 'none'), ('S2', 'gpu'), ('S1', 'nvme+shared')), (('S2', 'none'), ('S2', 'none'), ('S1', 'gpu'))]
+# node sizing variants (third member of a node entry): explicit capacities (default), an instance-type hint only, or unsized
+NODE_CONFIGS_SIZING = [(('S1', 'gpu', 'hints'),), (('S1', 'none'), ('S2', 'nvme+shared', 'unsized')), (('S2', 'gpu', 'hints'), ('S1', 'none'))]
 KINDS = ('bridge', 'v4ext', 'v6ext', 'pm_in', 'pm_out')
 CAPS = [(2, 8, 10), (4, 16, 100), (8, 32, 500)]
 
@@ -29,9 +31,15 @@ def build(nodes_cfg, services, node_order, svc_order, facility):
     world.reset_all()
     t = ExperimentTopology()
     for k in node_order:
-        site, mix = nodes_cfg[k]
+        site, mix = nodes_cfg[k][:2]
+        sizing = nodes_cfg[k][2] if len(nodes_cfg[k]) > 2 else 'caps'
         c, r, d = CAPS[k]
-        n = t.add_node(name=f'n{k}', site=site, capacities=Capacities(core=c, ram=r, disk=d))
+        if sizing == 'caps':
+            n = t.add_node(name=f'n{k}', site=site, capacities=Capacities(core=c, ram=r, disk=d))
+        elif sizing == 'hints':
+            n = t.add_node(name=f'n{k}', site=site, capacity_hints=CapacityHints(instance_type='fabric.c4.m16.d100'))
+        else:
+            n = t.add_node(name=f'n{k}', site=site)
         n.add_component(name='nic', model_type=ComponentModelType.SmartNIC_ConnectX_6)
         for cn, model in MIXES[mix]:
             n.add_component(name=cn, model_type=ComponentModelType[model])
@@ -230,11 +238,13 @@ def eval_slice(case):
 
 def descriptions(tier):
     out = []
-    cfgs = NODE_CONFIGS_Q if tier == 'quick' else NODE_CONFIGS_T
+    cfgs = (NODE_CONFIGS_Q if tier == 'quick' else NODE_CONFIGS_T) + NODE_CONFIGS_SIZING
     maxs = 3 if tier == 'quick' else 4
     for ci, cfg in enumerate(cfgs):
         opts = [(kd, k) for k in range(len(cfg)) for kd in KINDS]
         for size in range(0, maxs + 1):
+            if tier == 'quick' and cfg in NODE_CONFIGS_SIZING and size > 2:
+                continue
             if tier == 'quick' and size == 3:
                 # quick: three services (up to 12 creation orders) only on the two-site configuration and only for the
                 # kinds whose handling interacts (bridge / in-slice mirror / out-of-slice mirror)
